@@ -257,7 +257,10 @@ pub fn check_bytes(ctx: &mut Ctx, bytes: &[u8], dev: &str, edit_feature: &str) {
         Parse::Invalid(stage, reason) => match &obs {
             Obs::Refused(_) | Obs::Closed => ctx.pass(&format!("invalid:{stage}:{okind}"), true, true),
             Obs::Accepted(_) => ctx.violation(&format!("C02/{stage}/{reason}/accepted-should-refuse"), true, || witness("accepted", String::new())),
-            Obs::Stall => ctx.violation(&format!("C02/{stage}/{reason}/stall"), true, || witness("waits although every byte was delivered and the input can never become a valid request", String::new())),
+            // the end of the head (CRLF CRLF) has not arrived: waiting for it is not "a wait for input that already arrived",
+            // whatever the bytes so far look like (a server may validate a head only once it is complete)
+            Obs::Stall if !bytes.windows(4).any(|w| w == b"\r\n\r\n") => ctx.pass(&format!("invalid:{stage}:waits-for-end-of-head"), true, true),
+            Obs::Stall => ctx.violation(&format!("C02/{stage}/{reason}/stall"), true, || witness("waits although a complete head was delivered and the input can never become a valid request", String::new())),
             Obs::Panic(..) => unreachable!(),
         },
         Parse::Incomplete(stage) => match &obs {
